@@ -49,6 +49,10 @@ CLAUSES (statement + quantifier, clause -> deciding assertion [facets] -> popula
  16  wave-vector lists                 -> random with mirrored / permuted partners, one axis, one shell,    qlist-random qlist-single qlist-axis qlist-shell
                                           the documented default set; 1 .. 260 vectors (1030 thorough);    qlist-default qrep-int64 qrep-int32 qrep-int8
                                           int64 / int32 / int8 / float64 / float32 arrays                   qrep-float64 qrep-float32
+ 17  (implementation axis) integer     -> gr_dense: >= 130 / >= 260 SELECTED partners of one centre in     per-centre-weighted-bin-count-130+ / -260+
+     weights accumulated per bin          one bin for bool all / species / random, A = 1, int64 / int32 /
+                                          integer-valued float32 scalars (np.histogram accumulates in the
+                                          dtype of the weights)
 Weak before this round, class added now: sizes (N <= 25, <= 28 wave vectors: gr_sized / sq_sized / the two sweeps / the
 large thorough facets), S(q) of one particle, one selected particle, wave-vector representation (only int64 before;
 utils.wavevector returns int32) and list shapes, documented defaults of ppp / rdelta (the call of the documentation),
@@ -69,8 +73,8 @@ from ..ref import geom
 from ..ref import paircorr as pc
 from ..ref import sqref
 from ..util import arr, close, col, columns, require
-from .c03 import (SIZES_QUICK, SIZES_THOROUGH, boundary_sizes, dyadic_case_st, halfbox_case_st, permute_axes,
-                  random_frames, random_labels, rep_case_st, represent, size_tag)
+from .c03 import (SIZES_QUICK, SIZES_THOROUGH, boundary_sizes, dense_geometry, dyadic_case_st, halfbox_case_st,
+                  per_centre_counts, permute_axes, random_frames, random_labels, rep_case_st, represent, size_tag)
 
 from PyMatterSim.reader.reader_utils import Snapshots
 from PyMatterSim.static.gr import conditional_gr
@@ -88,7 +92,8 @@ RULE = ("single generated configurations (d {2,3}, N 6..25 for g(r) / 1..25 for 
         "everyday input (cubic box, 16..25 particles inside, fully periodic, widths 0.01..0.2, documented defaults of ppp "
         "and rdelta), minimal sizes (N = 2..3, one or two bins), dyadic grids (pairs on bin edges), whole batches inside "
         "the Cartesian half box of a strongly tilted cell, integer geometry as int64 arrays, mask as list / tuple / bool "
-        "/ float / int32, N and number of wave vectors at block boundaries 31..257 (thorough ..1025), a second call on "
+        "/ float / int32, N and number of wave vectors at block boundaries 31..257 (thorough ..1025), dense-wide systems with integer "
+        "weights (>= 130 / 260 selected partners of one centre in one bin), a second call on "
         "the SAME snapshot / condition arrays after writing new positions, tilt factors and field values into them, and "
         "frames kept alive over interleaved evaluations.  non-trivial: g(r): the weighted column has non-zero entries in "
         "at least two bins and the weights are not all equal; S(q): at least two wave vectors with non-zero S and at "
@@ -105,6 +110,8 @@ ASSUMPTIONS = [
     "decimals, hence 5e-7 + 5e-9 there",
     "gA_norm is compared only when the variance of A exceeds 1e-6 <A^2> (1e-2 <A^2> for float32 input, whose <A>^2 and "
     "<A^2> are accumulated in float32: tolerance 2e-6 relative there)",
+    "integer scalar fields of a NARROW dtype (int8 / uint8 / int16) are not generated: np.histogram accumulates in the dtype "
+    "of the weights, so the unchanged routine wraps for them in dense systems (reported, not asserted)",
     "integer-valued float32 and int32 scalars give exactly the float64 result for gA and Sq (every product and partial "
     "sum is exact); general float32 fields are not generated (products round at 6e-8)",
     "a frame handed out stays what it was when later calls run; a caller modifying a frame it received in place (the "
@@ -117,7 +124,8 @@ MANIFEST = {
              "interval, gA_norm, per-vector q / Sq / FFT and per-|q| means; plus the reductions species selection -> "
              "gr{aa}, Sq{aa}; all / A = 1 -> totals; vector = sum of components; symmetric tensor = flattened vector; a "
              "second call with the same array objects mutated in place must describe the contents at call time; particle "
-             "numbers and wave-vector counts at block boundaries (random facets + exhaustive sweeps); value-equal "
+             "numbers and wave-vector counts at block boundaries (random facets + exhaustive sweeps); dense-wide systems "
+             "with integer weights (per-centre per-bin counts beyond 127 / 255); value-equal "
              "argument representations and documented defaults; frames kept alive over interleaved calls."),
     "note": ("Trusted base: pbt/ref/geom.py, pbt/ref/paircorr.py, pbt/ref/fourier13.py, pbt/ref/sqref.py (default wave-"
              "vector set only; numpy only).  Histogram edges and half-cell ties are handled by an interval oracle.  Quick "
@@ -434,6 +442,39 @@ def gr_sized_case_st(draw, sizes, generic, kinds=ALLKINDS):
     lmin = float(np.diag(cell["H"]).min())
     rdelta = lmin / (2.0 * (draw(st.integers(2, 8)) + draw(fl(0.02, 0.98))))
     return gr_sized_case(plan, N, d, K, cell, ppp, kind, how, seed, rdelta)
+
+
+@st.composite
+def gr_dense_case_st(draw):
+    """Dense-wide configurations (see c03.dense_geometry): one bin of one centre particle holds >= 130 / >= 260 SELECTED
+    partners.  Conditions whose weights are integers: boolean selections (all, one large species, ~95 % random), A = 1,
+    small integers as int64 / int32 / integer-valued float32 — np.histogram accumulates in the dtype of the weights."""
+    d = draw(st.sampled_from([2, 3]))
+    K = draw(st.sampled_from([1, 2, 2, 3]))
+    cell, pos, rdelta, kind, N, rng = dense_geometry(draw, d)
+    types = np.where(rng.random(N) < 0.9, 1, rng.integers(1, K + 1, N))
+    types[:K] = np.arange(1, K + 1)
+    if draw(st.booleans()):
+        types = np.sort(types)
+    sub = draw(st.sampled_from(["bool-all", "bool-species", "bool-species", "bool-random", "float-one", "float-int",
+                                "float-int32", "float-f32int"]))
+    if sub == "bool-all":
+        cond = {"kind": "bool", "sub": "all", "A": np.ones(N, dtype=bool), "ctype": None}
+    elif sub == "bool-species":
+        cond = {"kind": "bool", "sub": "species", "A": types == 1, "ctype": None, "species": 1}
+    elif sub == "bool-random":
+        A = rng.random(N) < 0.95
+        A[0] = True
+        cond = {"kind": "bool", "sub": "random", "A": A, "ctype": None}
+    elif sub == "float-one":
+        cond = {"kind": "float", "sub": "one", "A": np.ones(N, dtype=np.float64), "ctype": None}
+    else:
+        A = rng.integers(1, 4, N)              # positive: the weighted count of a bin is >= the number of partners
+        A = A.astype({"float-int": np.int64, "float-int32": np.int32, "float-f32int": np.float32}[sub])
+        cond = {"kind": "float", "sub": sub.split("-")[1], "A": A, "ctype": None}
+    return {"d": d, "cell": cell, "pos": [pos], "types": types.astype(int), "ppp": np.ones(d, dtype=int), "K": K, "kind": kind,
+            "timesteps": [0], "outside": False, "rdelta": rdelta, "wmode": "wide", "klass": "dense", "cond": cond,
+            "dense": True}
 
 
 _SWEEP_PLANS = [{"kind": "bool", "sub": "species"}, {"kind": "float", "sub": "generic"}, {"kind": "complex", "sub": "generic"},
@@ -842,6 +883,10 @@ def check_gr(case):
         tags.append("labels-" + case["labels"])
     if cond["kind"] == "bool" and int(np.sum(A)) == 1:
         tags.append("one-particle-selected")
+    if case.get("dense"):
+        c_sel = per_centre_counts(case, weights=np.abs(w))[0]
+        tags.append("per-centre-weighted-bin-count-" + ("260+" if c_sel >= 260 else "130+" if c_sel >= 130 else "below-130"))
+        nontrivial = c_sel >= 130
     tags.append("in-range-pairs" if R["in_range"] else "no-pair-in-range")
     if case.get("second"):
         tags.append("second-call-mutated-in-place")
@@ -1125,7 +1170,7 @@ NT_SQ = "non-trivial: >= 2 wave vectors with S > 1e-7 and some |q| class with >=
 
 _gsweep = Facet("gr_size_sweep", check=gr_size_sweep, exhaustive=True, describe=lambda case: describe(case),
                  rule="finite: conditional_gr at every boundary particle number of the tier once (quick 26 values 31..257, "
-                      "thorough + 35 values 266..1025), condition kind / dimension / cell / mask cycling")
+                      "thorough + 19 values 266..1025), condition kind / dimension / cell / mask cycling")
 _gsweep.replay = lambda case: guarded_check(check_gr, case)  # noqa: E731
 _ssweep = Facet("sq_size_sweep", check=sq_size_sweep, exhaustive=True, describe=lambda case: describe(case),
                  rule="finite: conditional_sq at every boundary number of wave vectors (N = 20) and every boundary number "
@@ -1159,6 +1204,11 @@ FACETS = [
           rule="conditional_sq, number of wave vectors and / or number of particles at block boundaries (31..257) or "
                "anywhere in 31..260; lists random / one axis / one shell / documented default set; wave vectors as int64 "
                "/ int32 / int8 / float64 / float32 arrays. " + NT_SQ),
+    Facet("gr_dense", gr_dense_case_st(), check_gr, quick=30, thorough=800, describe=describe, shards_quick=2,
+          rule="conditional_gr, dense-wide: 140..330 particles inside a ball below half a bin width or an ideal gas of "
+               "230..600 particles with two bins, conditions with integer weights (bool all / one large species / 95 % "
+               "random, A = 1, small integers as int64 / int32 / float32): >= 130 / >= 260 selected partners of one "
+               "centre in one bin.  non-trivial: weighted per-centre per-bin count >= 130"),
     Facet("gr_sized_large", gr_sized_case_st(SIZES_THOROUGH, (261, 1030)), check_gr, quick=0, thorough=160,
           describe=describe, rule="thorough tier only: conditional_gr with N around 500, 512, 1000, 1024 (266..1030). " + NT_GR),
     Facet("sq_sized_large", sq_sized_case_st(SIZES_THOROUGH, (261, 1030), SIZES_THOROUGH, (261, 1030)), check_sq, quick=0,
